@@ -45,6 +45,8 @@ type charGen struct {
 	builder  *ssa.Call
 	chars    ssa.Value
 	draw     *ssa.Call
+	viaPick  bool      // draw is a call of a uniform-pick helper on chars
+	elem     ssa.Value // the drawn character (load of chars[draw], or the pick call)
 	drawIdx  *ssa.IndexAddr
 	tokens   *ssa.MakeSlice
 	tokStore *ssa.Store
@@ -63,7 +65,7 @@ func resolveCharGen(p *core.Program) (*charGen, string) {
 	}
 	roles := GetRoles(p)
 	g := &charGen{fn: fn, loops: core.Loops(fn)}
-	for _, s := range roles.DrawSites {
+	for _, s := range roles.ChoiceSites {
 		if s.Parent() == fn {
 			if g.draw != nil {
 				return nil, "more than one draw site in CharRecipe.Generate"
@@ -74,46 +76,63 @@ func resolveCharGen(p *core.Program) (*charGen, string) {
 	if g.draw == nil {
 		return nil, "no draw site in CharRecipe.Generate"
 	}
-	// uses of the draw result
-	var uses []ssa.Instruction
-	var collect func(v ssa.Value)
-	collect = func(v ssa.Value) {
-		for _, ref := range core.Referrers(v) {
-			switch x := ref.(type) {
-			case *ssa.Convert:
-				collect(x)
-			case *ssa.ChangeType:
-				collect(x)
-			case *ssa.DebugRef:
-			default:
-				uses = append(uses, ref)
+	if _, coll, isPick := roles.IsPickCall(g.draw); isPick {
+		g.viaPick = true
+		g.chars = coll
+		g.elem = g.draw
+		if c, ok := core.StripType(coll).(*ssa.Call); ok {
+			g.builder = c
+			if len(c.Call.Args) == 1 {
+				if al, ok := c.Call.Args[0].(*ssa.Alloc); ok {
+					g.recvCopy = al
+				}
 			}
 		}
 	}
-	collect(g.draw)
-	if len(uses) != 1 {
-		return nil, fmt.Sprintf("the draw result has %d uses (expected exactly one index expression)", len(uses))
-	}
-	ia, ok := uses[0].(*ssa.IndexAddr)
-	if !ok || core.Strip(ia.Index) != ssa.Value(g.draw) {
-		return nil, "the draw result is not used as an index: " + uses[0].String()
-	}
-	g.drawIdx = ia
-	g.chars = ia.X
-	if c, ok := core.StripType(ia.X).(*ssa.Call); ok {
-		g.builder = c
-		if len(c.Call.Args) == 1 {
-			if al, ok := c.Call.Args[0].(*ssa.Alloc); ok {
-				g.recvCopy = al
+	if !g.viaPick {
+		// uses of the draw result
+		var uses []ssa.Instruction
+		var collect func(v ssa.Value)
+		collect = func(v ssa.Value) {
+			for _, ref := range core.Referrers(v) {
+				switch x := ref.(type) {
+				case *ssa.Convert:
+					collect(x)
+				case *ssa.ChangeType:
+					collect(x)
+				case *ssa.DebugRef:
+				default:
+					uses = append(uses, ref)
+				}
 			}
 		}
-	}
+		collect(g.draw)
+		if len(uses) != 1 {
+			return nil, fmt.Sprintf("the draw result has %d uses (expected exactly one index expression)", len(uses))
+		}
+		ia, ok := uses[0].(*ssa.IndexAddr)
+		if !ok || core.Strip(ia.Index) != ssa.Value(g.draw) {
+			return nil, "the draw result is not used as an index: " + uses[0].String()
+		}
+		g.drawIdx = ia
+		g.chars = ia.X
+		if c, ok := core.StripType(ia.X).(*ssa.Call); ok {
+			g.builder = c
+			if len(c.Call.Args) == 1 {
+				if al, ok := c.Call.Args[0].(*ssa.Alloc); ok {
+					g.recvCopy = al
+				}
+			}
+		}
+		for _, ref := range core.Referrers(ia) {
+			if ld, ok := ref.(*ssa.UnOp); ok {
+				g.elem = ld
+			}
+		}
+	} // !viaPick
 	// the drawn character -> Token literal -> tokens[i]
-	for _, ref := range core.Referrers(ia) {
-		ld, ok := ref.(*ssa.UnOp)
-		if !ok {
-			continue
-		}
+	if g.elem != nil {
+		ld := g.elem
 		for _, r2 := range core.Referrers(ld) {
 			st, ok := r2.(*ssa.Store)
 			if !ok {
@@ -314,15 +333,21 @@ func isConcatOfSet(f *ssa.Function) (bool, string) {
 func checkDrawShape(p *core.Program, r *core.Report, g *charGen, r22, r23 string) {
 	name := core.FuncName(g.fn)
 	pos := p.InstrPos(g.draw)
-	bound := g.draw.Call.Args[0]
-	x, isLen := core.LenOf(core.Strip(bound))
-	r.Check(isLen && x == g.chars, r22, name, "draw bound is len of the indexed alphabet (same value)", pos,
-		"bound "+core.Describe(bound)+" vs indexed "+core.Describe(g.chars)+": an index range one short or long loses or over-runs a character")
-	if cv, ok := bound.(*ssa.Convert); ok {
-		_, isL := core.LenOf(cv.X)
-		r.Check(isL, r22, name, "bound is a plain conversion of the length (no ±1)", pos, core.Describe(cv.X))
+	if g.viaPick {
+		h := core.StaticCallee(g.draw)
+		r.Pass(r22, name, "character chosen by the uniform-pick helper "+core.FuncName(h)+" applied to the alphabet", pos,
+			"helper shape verified: return list[draw(uint32(len(list)))] — bound and indexed slice are the same parameter")
+	} else {
+		bound := g.draw.Call.Args[0]
+		x, isLen := core.LenOf(core.Strip(bound))
+		r.Check(isLen && x == g.chars, r22, name, "draw bound is len of the indexed alphabet (same value)", pos,
+			"bound "+core.Describe(bound)+" vs indexed "+core.Describe(g.chars)+": an index range one short or long loses or over-runs a character")
+		if cv, ok := bound.(*ssa.Convert); ok {
+			_, isL := core.LenOf(cv.X)
+			r.Check(isL, r22, name, "bound is a plain conversion of the length (no ±1)", pos, core.Describe(cv.X))
+		}
+		r.Pass(r22, name, "draw result is used exactly once, as the index", pos, "")
 	}
-	r.Pass(r22, name, "draw result is used exactly once, as the index", pos, "")
 	if g.builder == nil {
 		r.Fail(r22, name, "indexed alphabet is the builder's result", pos, "indexed value "+core.Describe(g.chars)+" is not the result of the alphabet builder")
 	}
